@@ -431,7 +431,7 @@ func bconstIntOK(v ssa.Value) (int64, bool) {
 // outlines (directly or through a callee), or excludes CID-keyed fonts; one
 // that does neither disagrees with its siblings for such fonts.
 func RunFDMatrix(w *World, r *Report) {
-	r.Rule("fdmatrix: every method of sfnt.Font that reads the field FontMatrix also reaches (itself or through static callees inside the module) a read of the field FontMatrices of the CFF outlines or a call of IsCIDKeyed: the per-font-dictionary matrices of CID-keyed fonts are taken into account by all metric queries alike")
+	r.Rule("fdmatrix: every method of sfnt.Font and cff.Font that reads the field FontMatrix also reaches (itself or through static callees inside the module) a read of the field FontMatrices of the CFF outlines or a call of IsCIDKeyed: the per-font-dictionary matrices of CID-keyed fonts are taken into account by all metric queries alike")
 	reads := func(fn *ssa.Function, field string) bool {
 		for _, b := range fn.Blocks {
 			for _, in := range b.Instrs {
@@ -479,10 +479,10 @@ func RunFDMatrix(w *World, r *Report) {
 	}
 	n := 0
 	for _, fn := range w.LibFuncs() {
-		if fnPkgPath(fn) != modPath || fn.Signature.Recv() == nil || fn.Parent() != nil {
+		if (fnPkgPath(fn) != modPath && fnPkgPath(fn) != modPath+"/cff") || fn.Signature.Recv() == nil || fn.Parent() != nil {
 			continue
 		}
-		if !strings.HasSuffix(fn.Signature.Recv().Type().String(), "sfnt.Font") {
+		if rt := fn.Signature.Recv().Type().String(); !strings.HasSuffix(rt, "sfnt.Font") && !strings.HasSuffix(rt, "cff.Font") {
 			continue
 		}
 		if !reads(fn, "FontMatrix") {
